@@ -139,8 +139,8 @@ def cmp_values(kind: str, tier: str):
     raise ValueError(kind)
 
 
-def grid_module(kind: str, tier: str, rnd: random.Random, out_lits: list[str] | None = None) -> tuple[str, dict]:
-    lex = lex_slots(kind, tier, rnd) if kind in ("date", "time", "dateTime", "period", "duration") else [[]]
+def grid_module(kind: str, tier: str, rnd: random.Random, out_lits: list[str] | None = None, lex_override=None) -> tuple[str, dict]:
+    lex = lex_override or (lex_slots(kind, tier, rnd) if kind in ("date", "time", "dateTime", "period", "duration") else [[]])
     info = {"lex_slots": [len(s) for s in lex]}
     lex_t = "<< " + ", ".join(tla_set(chars(x) for x in slot) for slot in lex) + " >>"
     if kind in ("date", "time", "dateTime"):
